@@ -11,8 +11,8 @@ D2B = "score_analysis.applications.doc_fraud.doc_to_binary_label"
 B2D = "score_analysis.applications.doc_fraud.binary_to_doc_label"
 G = Sym("genuines", ("param", "array", "notnone"))
 F = Sym("frauds", ("param", "array", "notnone"))
-EG = Sym("Eg", ("int", "notnone"))
-EF = Sym("Ef", ("int", "notnone"))
+EG = Sym("Eg", ("int", "notnone", "nonneg"))
+EF = Sym("Ef", ("int", "notnone", "nonneg"))
 
 
 def out_of_range_forms(x):
